@@ -78,7 +78,7 @@ func (t Trace) less(o Trace) bool {
 
 func streamOf(label string) int {
 	switch {
-	case label == "run" || strings.HasPrefix(label, "tick"):
+	case label == "run" || strings.HasPrefix(label, "tick") || strings.HasPrefix(label, "pct "):
 		return streamSched
 	case strings.HasPrefix(label, "select ") || strings.HasPrefix(label, "maprange "):
 		return streamOrder
